@@ -614,10 +614,12 @@ static std::string cxx_pair(Tier tier, int entry, char A, char B)
 				if (!J.mt) { ++nomake; continue; }
 			}
 			++made;
-			for (int tix = 0; tix < NDST; ++tix) check_value(cr, J, v, tix, vec);
+			for (int tix = 0; tix < NDST && !cr.nviol; ++tix) check_value(cr, J, v, tix, vec);
+			if (cr.nviol) break;     // a history that violated is not continued
 		}
 		J.c.flush(cr, (std::string(ENTRY[entry]) + ":").c_str());
 		cr.counters["nontrivial"] += 0;
+		if (cr.nviol) break;
 	}
 	std::string out = fmt("N\t%llu\t%llu\n", (unsigned long long) cr.states, (unsigned long long) cr.transitions);
 	out += fmt("C\t%s:wrapper_objects\t%llu\n", ENTRY[entry], (unsigned long long) made);
